@@ -115,7 +115,7 @@ def msg_val(m):
                 [[e[0], nlri_val(e[1])] for e in expand_entries(m[4])]]
     if t == 'unreach': return [3, m[1], [[e[0], nlri_val(e[1])] for e in expand_entries(m[2])]]
     if t == 'eor': return [4, m[1]]
-    if t == 'notif': return [5, m[1], m[2], m[3]]
+    if t == 'notif': return [5, m[1], m[2], expand_bytes(m[3])]
     if t == 'ka': return [6]
     if t == 'refresh': return [7, m[1]]
     raise ValueError(m)
@@ -128,7 +128,7 @@ def msg_coq(m):
                                            clist([attr_coq(a) for a in m[3]]), entries_coq(m[4]))
     if t == 'unreach': return '(Some (MUnreach %s %s))' % (cN(m[1]), entries_coq(m[2]))
     if t == 'eor': return '(Some (MEor %s))' % cN(m[1])
-    if t == 'notif': return '(Some (MNotif %s %s %s))' % (cN(m[1]), cN(m[2]), cbytes(m[3]))
+    if t == 'notif': return '(Some (MNotif %s %s %s))' % (cN(m[1]), cN(m[2]), bytes_coq(m[3]))
     if t == 'ka': return '(Some MKeepalive)'
     if t == 'refresh': return '(Some (MRefresh %s))' % cN(m[1])
     raise ValueError(m)
@@ -152,7 +152,7 @@ class Prop:
     props_file = 'Props/C04.v'
     required_theorems = ['frames_within_limit', 'decode_encode_routes', 'split_preserves_multiset', 'reach_frames_all_families',
                          'unreach_frames_all_families', 'open_roundtrip', 'frame_lengths_consistent', 'eor_frame',
-                         'peer_codec_agrees', 'as4_path_roundtrip']
+                         'peer_codec_agrees', 'as4_path_roundtrip', 'unreach_never_refused', 'reach_never_refused']
     extra_targets = ['Model/WireEnc.vo']
     correspondence_name = 'Model/WireEnc.v encode_to vs rustybgp_packet::bgp::PeerCodec::encode_to (harness/hx-enc), debug and release'
     rule = ('case = (local capabilities, remote capabilities, message); messages: OPEN with capability lists whose encoded size runs through 255 '
